@@ -4,7 +4,7 @@ from __future__ import annotations
 ID = "C08"
 BOUNDS = {
     "quick": "every class of DPTBase.dpt_class_tree(); the declared-length payload with all octets (or the 6-bit value) symbolic; exact IEEE-754 semantics for float-coded types (z3 Float64), with a budget of 45 s per class and 40 s per solver query (portfolio: z3 bit-blasting tactic, z3 default, cvc5 binary): classes that exceed it are listed as inconclusive; text types: first three octets from {00, 41, 7F, 80, E9, FF} (rest NUL); DPT 14.* (round(x, ndigits) and log10 are not modelled exactly) not applicable",
-    "thorough": "as quick with 1200 s per class and 400 s per query",
+    "thorough": "as quick with 240 s per class and 120 s per solver query",
 }
 OUTSIDE = "DPT 14.xxx display rounding (decimal rounding to 7 significant digits is not encodable); text payloads beyond the stated alphabet/positions; cells listed as inconclusive in the evidence (solver budget)"
 ASSUMPTIONS = [
@@ -20,7 +20,7 @@ TEXT = ()   # text classes are recognised by their _encoding attribute
 def jobs(tier, seed):
     from props.dpt_common import all_classes, chunks
     names = [c.__name__ for c in all_classes() if c.dpt_main_number != 14]
-    budget = (45, 40) if tier == "quick" else (1200, 400)
+    budget = (45, 40) if tier == "quick" else (240, 120)
     out = []
     heavy = [n for n in names if is_float_coded(n)]
     light = [n for n in names if n not in heavy]
